@@ -74,6 +74,19 @@ func Generate(rng *rand.Rand, i int, thorough bool) *p2prig.Scenario {
 			ns.ForbiddenAt = 1 + rng.Intn(20)
 			ns.Cap = 1
 		}
+		// every third time the forbidden header sits exactly at a checkpoint height (it is both forbidden and a checkpoint
+		// mismatch: its sender is banned all the same)
+		if !ns.OrphanForbidden && ns.Cap == 0 && rng.Intn(3) == 0 {
+			for _, cp := range s.CheckpointHeights {
+				if int(cp) >= 2 && int(cp) <= s.HonestLen-14 {
+					ns.ForbiddenAt = int(cp)
+					if s.InitialStore == "prefix" {
+						s.PrefixLen = ns.ForbiddenAt - 1
+					}
+					break
+				}
+			}
+		}
 		// the forbidden node must not contradict a checkpoint below the forbidden header (it follows the honest chain up to there)
 		if s.Engine == "legacy" {
 			s.BanDurationMs = []int{3600000, 3600000, 1}[rng.Intn(3)]
